@@ -13,7 +13,7 @@ def run(ctx):
         behs = core.generate(ctx, "Gen_Socks.tla", "Gen_Socks_all.cfg", 0, 0, ctx.seed, bfs=True, timeout=1800)
     ctx.say("  scenarios: %d behaviours (client stream x segmentation x truncation x agent answer, each to its end)" % len(behs))
     hb = core.build_harness(ctx)
-    trace, summ = core.run_harness(ctx, hb, "socks", behs, "socks", timeout=3000)
+    trace, summ = core.run_harness(ctx, hb, "socks", behs, "socks", timeout=900 if quick else 3000)
     for inc in summ["incidents"]:
         core.report(ctx, {"check": "replay", "kind": inc["kind"], "site": inc["site"]}, inc)
     v = core.validate_traces(ctx, "Trace_Socks.tla", "Trace_Socks_strict.cfg", "Trace_Socks_mon.cfg", trace, "socks", timeout=3000)
